@@ -116,8 +116,8 @@ def lean_sources():
 # further modules whose theorems belong to a property's obligations
 EXTRA_MODULES = {
     "C14": ["CodeLimit.Props.C14b"],
-    "C01": ["CodeLimit.Lemmas.GenTie"],
-    "C05": ["CodeLimit.Lemmas.GenTie"],
+    "C01": ["CodeLimit.Lemmas.GenTie", "CodeLimit.Props.C01disc"],
+    "C05": ["CodeLimit.Lemmas.GenTie", "CodeLimit.Props.C05text"],
 }
 
 
